@@ -88,6 +88,62 @@ def handleC19 (fields : List String) : Verdict :=
               return { modelOk := false, modelOut := toString (repr ans) }
         return { modelOk := true, nontrivial := ref.any (fun m => m != 0 && m != 2 ^ (2 ^ bits) - 1) }
     | _, _, _ => Verdict.badLine "unreadable seq line"
+  | ["mixed", widths, ops, obs] =>
+    -- sets of different widths in one environment: after every step the DIAGRAM of every set, against the model's
+    -- (insert builds the cube of the set's own width; the binary operations combine the diagrams as they are) and
+    -- against a reference on the integers below 2^W, W the largest width: set i holds x iff … x mod 2^(w_i) …
+    match parseNats widths, ((ops.splitOn ";").filter (· ≠ "")).mapM parseSetOp with
+    | some ws, some ops =>
+      let obsL := (obs.splitOn ";").filter (· ≠ "")
+      let W := ws.foldl max 0
+      let univ := List.range (2 ^ W)
+      let wOf := fun (i : Nat) => ws.getD i 0
+      let refStepM := fun (r : List (List Bool)) (op : SetOp) => (match op with
+        | .insert i e => r.set i ((univ.zip (r.getD i [])).map (fun (x, b) => b || x % 2 ^ wOf i == e % 2 ^ wOf i))
+        | .union i j => r.set i (((r.getD i []).zip (r.getD j [])).map (fun (a, b) => a || b))
+        | .intersect i j => r.set i (((r.getD i []).zip (r.getD j [])).map (fun (a, b) => a && b))
+        | .complement i j => r.set i (((r.getD i []).zip (r.getD j [])).map (fun (a, b) => a && !b))
+        | .empty i => r.set i (univ.map (fun _ => false))
+        | .universe i => r.set i (univ.map (fun _ => true))
+        | _ => r : List (List Bool))
+      let stepM := fun (sets : List BDD) (op : SetOp) => (match op with
+        | .insert i e => sets.set i (BDD.or (sets.getD i .F) (item (wOf i) e))
+        | .union i j => sets.set i (BDD.or (sets.getD i .F) (sets.getD j .F))
+        | .intersect i j => sets.set i (BDD.and (sets.getD i .F) (sets.getD j .F))
+        | .complement i j => sets.set i (BDD.and (sets.getD i .F) (BDD.not (sets.getD j .F)))
+        | .empty i => sets.set i (BDD.mkConst false)
+        | .universe i => sets.set i (BDD.mkConst true)
+        | _ => sets : List BDD)
+      Id.run do
+        let mut sets : List BDD := ws.map (fun _ => BDD.mkConst false)
+        let mut ref : List (List Bool) := ws.map (fun _ => univ.map (fun _ => false))
+        let mut idx := 0
+        for (op, ob) in ops.zip obsL do
+          idx := idx + 1
+          if ob == "PANIC" then
+            return { modelOk := false, modelOut := "ok", oracle := some s!"step {idx} ({repr op}), widths {ws}: the operation panicked" }
+          sets := stepM sets op
+          ref := refStepM ref op
+          match (ob.splitOn ",").mapM parseBDD with
+          | none => return Verdict.badLine s!"step {idx}: unreadable diagrams"
+          | some real =>
+            for (k, (r, want)) in (real.zip ref).zipIdx.map (fun (p, k) => (k, p)) do
+              if ¬ Ordered r then
+                return { modelOk := real == sets, modelOut := showBDD (sets.getD k .F),
+                         oracle := some s!"step {idx} ({repr op}), widths {ws}: the diagram of set {k} is not ordered: {showBDD r}" }
+              if ¬ Reduced r then
+                return { modelOk := real == sets, modelOut := showBDD (sets.getD k .F),
+                         oracle := some s!"step {idx} ({repr op}), widths {ws}: the diagram of set {k} is not reduced: {showBDD r}" }
+              -- what a combination of sets of different widths should hold is not fixed by any of the properties (C19
+              -- speaks of sets of one width): a different membership is a difference from the model, not an accusation
+              let got := univ.map (memB r)
+              if got != want then
+                return { modelOk := false,
+                         modelOut := s!"step {idx} ({repr op}), widths {ws}: set {k} holds {(univ.zip got).filterMap (fun (x, b) => if b then some x else none)} of the integers below {2 ^ W}, the model {(univ.zip want).filterMap (fun (x, b) => if b then some x else none)}" }
+            if real != sets then
+              return { modelOk := false, modelOut := String.intercalate "," (sets.map showBDD) }
+        return { modelOk := true, nontrivial := sets.any (·.isChoice) }
+    | _, _ => Verdict.badLine "unreadable mixed line"
   | ["wide", bits, nsets, cands, ops, obs] =>
     -- sets too wide to enumerate: membership of a list of candidates (every element of the history, reduced to the
     -- width, and elements that never occur); the reference is exact on them because every operation is pointwise
